@@ -84,7 +84,7 @@ func c19TouchesID(c c19AccCase, idx int) bool {
 }
 
 var c19AccVersions = []string{"10", "12", "3", "4", "11", "6", "9", "org.matrix.hydra.11", "org.matrix.msc4014", "1", "2"}
-var c19AccKinds = []string{"message", "member", "create", "power", "joinrules", "histvis", "redaction"}
+var c19AccKinds = []string{"message", "member", "create", "power", "power-full", "joinrules", "histvis", "redaction"}
 
 func c19AccGen(t *rapid.T) c19AccCase {
 	c := c19AccCase{
@@ -179,6 +179,9 @@ func c19AccBuild(c c19AccCase) ([]byte, IRoomVersion, error) {
 		ev, err = c19AccBuildOne(ver, roomID, spec.MRoomMember, &user, `{"membership":"join","displayname":"c19"}`, "", 2, prev, auth)
 	case "power":
 		ev, err = c19AccBuildOne(ver, roomID, spec.MRoomPowerLevels, &empty, `{"users":{"@u:c19.example":100},"users_default":0,"events_default":0,"state_default":50,"ban":50,"kick":50,"redact":50,"invite":0}`, "", 3, prev, auth)
+	case "power-full":
+		// every section of the content present, including the rarely used ones
+		ev, err = c19AccBuildOne(ver, roomID, spec.MRoomPowerLevels, &empty, `{"users":{"@u:c19.example":100,"@v:c19.example":50},"users_default":1,"events":{"m.room.name":60,"m.room.power_levels":100},"events_default":2,"state_default":51,"ban":52,"kick":53,"redact":54,"invite":3,"notifications":{"room":10,"org.example.custom":7}}`, "", 3, prev, auth)
 	case "joinrules":
 		ev, err = c19AccBuildOne(ver, roomID, spec.MRoomJoinRules, &empty, `{"join_rule":"public"}`, "", 3, prev, auth)
 	case "histvis":
@@ -315,6 +318,20 @@ func c19AccRun(out *c19Out, raw []byte) {
 	for idx := range used {
 		if refCold[idx] != refWarm[idx] {
 			out.Class("observation/result-depends-on-earlier-EventID-call/" + c19Accessors[idx].Name)
+		}
+	}
+	// read-only accessors leave nothing behind for OTHER events: a power-levels event that does not
+	// mention notifications still reports the default afterwards
+	if c.Kind == "power-full" {
+		plain := c
+		plain.Kind = "power"
+		if pj, pver, err := c19AccBuild(plain); err == nil {
+			if pe, err := c19AccParse(pver, "trusted", pj, ""); err == nil {
+				pl, err := pe.PowerLevels()
+				if err != nil || pl == nil || len(pl.Notifications) != 1 || pl.Notifications["room"] != 50 {
+					out.Fail("C19/accessors/defaults-of-other-events-changed", "after the accessors of a power-levels event with a notifications section ran, another event without that section reports notifications %v (err %v); the default is {room: 50}", c19Str(pl, err), err)
+				}
+			}
 		}
 	}
 }
